@@ -931,11 +931,15 @@ void var_opt_sketch<T, A>::decrease_k_by_1() {
     const uint32_t old_final_r_idx = (h_ + 1 + r_) - 1;
     if (old_final_r_idx != k_) throw std::logic_error("gadget in invalid state");
     
-    if (!filled_data_) {
-      // the gap is raw storage: give it an object before swapping into it
-      new (&data_[old_gap_idx]) T(data_[old_final_r_idx]);
+    // the last R item moves into the gap; its old slot leaves the array (k_ shrinks below), so nothing may stay there
+    if (filled_data_) {
+      data_[old_gap_idx] = std::move(data_[old_final_r_idx]);
+    } else {
+      new (&data_[old_gap_idx]) T(std::move(data_[old_final_r_idx])); // the gap is raw storage
     }
-    swap_values(old_final_r_idx, old_gap_idx);
+    data_[old_final_r_idx].~T();
+    std::swap(weights_[old_final_r_idx], weights_[old_gap_idx]);
+    if (marks_ != nullptr) std::swap(marks_[old_final_r_idx], marks_[old_gap_idx]);
     filled_data_ = true; // the gap now holds an object
 
     // now we pull an item out of H; any item is ok, but if we grab the rightmost and then
